@@ -234,6 +234,21 @@ class IASolverBaseClass:  # pylint: disable=R0902
         if F is None and full_F is None:
             raise RuntimeError("Either 'F' or 'full_F' must be provided.")
 
+        # The precoders are stored as 1D numpy arrays of 2D numpy arrays
+        # (a plain list would be broadcast as a 3D array when multiplied
+        # by the power)
+        def to_array_of_arrays(
+                seq: Optional[Sequence[np.ndarray]]) -> Optional[np.ndarray]:
+            if seq is None or isinstance(seq, np.ndarray):
+                return seq
+            out = np.empty(len(seq), dtype=np.ndarray)
+            for idx, matrix in enumerate(seq):
+                out[idx] = matrix
+            return out
+
+        F = to_array_of_arrays(F)
+        full_F = to_array_of_arrays(full_F)
+
         self._clear_precoder_filter()
 
         if P is not None:
